@@ -47,6 +47,14 @@ fn versions(lang: Lang) -> Vec<(&'static str, Vec<(&'static str, String)>)> {
         ("V9-large-output", vec![("ws/x/src/lib.rs", format!("{a}\n{large}"))]),
         // differs from V9 only near the end of a large output, by bytes only: every file has the same length as before
         ("V10-large-output-tail-changed-same-length", vec![("ws/x/src/lib.rs", format!("{a}\n{large_changed}"))]),
+        // one crate, four files, each with an item whose serde name sorts on the other side of its neighbours than its Rust
+        // name: every run is a fresh arrival order of the four files
+        ("V13-renamed-items-in-several-files", vec![
+            ("ws/x/src/lib.rs", "#[typeshare]\n#[serde(rename = \"Zulu\")]\npub struct Alpha { pub id: u32, pub name: String }\n".to_string()),
+            ("ws/x/src/m.rs", "#[typeshare]\npub struct Mike { pub m: u32 }\n".to_string()),
+            ("ws/x/src/y.rs", "#[typeshare]\n#[serde(rename = \"Bravo\")]\npub struct Yankee { pub y: u32 }\n".to_string()),
+            ("ws/x/src/c.rs", "#[typeshare]\n#[serde(rename = \"November\", tag = \"type\", content = \"content\")]\npub enum Charlie { One(u32), Two }\n".to_string()),
+        ]),
         ("V2-renamed-and-changed", vec![("ws/x/src/lib.rs", format!("{a}\n{b_renamed}"))]),
         ("V5-unit-removed", vec![("ws/x/src/lib.rs", format!("{a}\n{no_unit}"))]),
         // only the earlier crate differs from V3
@@ -295,7 +303,7 @@ pub fn run(args: &[String]) -> i32 {
     const L: &str = "through-symlink";
     const G: &str = "configured";
     let graphs: Vec<(Lang, bool, &'static str, usize)> = if thorough {
-        ALL_LANGS.iter().flat_map(|l| [(*l, false, P, 13), (*l, true, P, 13), (*l, false, L, 9), (*l, true, L, 9), (*l, false, G, 9), (*l, true, G, 9)]).collect()
+        ALL_LANGS.iter().flat_map(|l| [(*l, false, P, 14), (*l, true, P, 14), (*l, false, L, 9), (*l, true, L, 9), (*l, false, G, 9), (*l, true, G, 9)]).collect()
     } else {
         vec![(Lang::Swift, true, P, 9), (Lang::Swift, false, P, 9), (Lang::TypeScript, true, P, 9), (Lang::TypeScript, false, P, 9), (Lang::Kotlin, true, P, 9), (Lang::Swift, false, L, 4), (Lang::Go, false, L, 4), (Lang::Swift, true, L, 4), (Lang::Swift, true, G, 6), (Lang::Swift, false, G, 6), (Lang::Go, false, G, 6)]
     };
